@@ -558,6 +558,12 @@ func (c *Context) onRestart(message *RestartMessage, behavior vivid.Behavior) {
 }
 
 func (c *Context) onKill(message *vivid.OnKill, behavior vivid.Behavior) {
+	if message.Poison && c.envelop.System() && !c.zombie && atomic.LoadInt32(&c.state) == running && !c.mailbox.IsPaused() {
+		// 正在终止的父级下达的毒杀指令（见 doKill）：邮箱未被挂起，转为用户消息，处理完剩余消息后再终止；
+		// 邮箱已挂起（此前的挂起指令先于本消息被处理）时用户消息无法被处理，则立即终止
+		c.mailbox.Enqueue(mailbox.NewEnvelop(false, c.envelop.Sender(), c.ref, message))
+		return
+	}
 	if !c.zombie && !atomic.CompareAndSwapInt32(&c.state, running, killing) {
 		// 正在重启且仍在等待子 Actor 终止时收到终止指令：放弃重启，待子 Actor 终止后直接终止。
 		// 否则该指令会被忽略，重启完成后 Actor 继续存活，而其（正在终止的）父级将永远等不到它的终止
@@ -576,14 +582,15 @@ func (c *Context) doKill(message *vivid.OnKill, behavior vivid.Behavior) {
 	// 等待所有子 Actor 结束，假设是重启，子 Actor 不应该跟随重启，应该由父节点决定是否重启
 	for _, child := range c.Children() {
 		c.Logger().Debug("notify child kill", log.String("path", child.GetPath()))
-		poison := message.Poison
-		if ref, ok := child.(*Ref); ok && poison && c.system.findMailbox(ref).IsPaused() {
-			// 毒杀指令以用户消息投递，邮箱被挂起（失败后等待监管决策）的子 Actor 无法处理它；
-			// 而其故障可能已被升级给一个只会终止/重启上级的监管者，不会再有人恢复或终止它，自身便永远等不到它的终止。
-			// 因此对挂起中的子 Actor 立即（以系统消息）终止
-			poison = false
-		}
-		c.Kill(child, poison, message.Reason)
+		// 毒杀指令以用户消息投递，邮箱被挂起（失败后等待监管决策）的子 Actor 无法处理它；
+		// 而其故障可能已被升级给一个只会终止/重启上级的监管者，不会再有人恢复或终止它，自身便永远等不到它的终止。
+		// 是否挂起只能由子 Actor 自身按系统消息的先后判定：此处读取邮箱状态时，自身此前（监管时）发出的挂起指令可能尚未被处理。
+		// 因此统一以系统消息投递，由子 Actor 在 onKill 中决定立即终止还是转为用户消息排在剩余消息之后
+		c.tell(true, child, &vivid.OnKill{
+			Killer: c.ref,
+			Poison: message.Poison,
+			Reason: message.Reason,
+		})
 	}
 
 	// 宣告自己进入死亡中
